@@ -27,6 +27,7 @@ pub enum SrcFault {
     Persistent,
 }
 
+#[derive(Clone)]
 pub struct ChainState {
     pub blocks: HashMap<BlockHash, StoredBlock>,
     /// active chain, index = height
@@ -172,6 +173,9 @@ pub struct SimChain {
     pub snap_path: Option<std::path::PathBuf>,
     /// snapshots are only taken while armed (i.e. not during the bootstrap's block fetching)
     pub armed: std::sync::atomic::AtomicBool,
+    /// called (on the tower's chain thread) right before a block is handed out, i.e. between two
+    /// block events: the E2 scheduler uses it as a scheduling point
+    pub on_boundary: Option<Arc<dyn Fn() + Send + Sync>>,
 }
 
 impl SimChain {
@@ -206,6 +210,9 @@ impl BlockSource for SimChain {
     fn get_block<'a>(&'a self, header_hash: &'a BlockHash) -> AsyncBlockSourceResult<'a, BlockData> {
         Box::pin(async move {
             crate::events::boundary("src.get_block");
+            if let (Some(f), true) = (&self.on_boundary, self.armed.load(std::sync::atomic::Ordering::SeqCst)) {
+                f();
+            }
             let mut st = lock(&self.state);
             if let Some(e) = self.fault(&mut st, "get_block") {
                 return Err(e);
